@@ -137,7 +137,11 @@ fn spec_piece() -> BoxedStrategy<String> {
     .boxed()
 }
 pub fn format_string() -> BoxedStrategy<String> {
+    // a long literal run (around the 255/256/1024 marks, ASCII or multi-byte) followed by a specifier
+    let long = (proptest::sample::select(vec![200usize, 254, 255, 256, 257, 300, 511, 512, 1023, 1024, 1025]), proptest::sample::select(vec!["x", "é", "日", "-", "0"]), spec_piece(), prop_oneof![1 => Just(String::new()), 1 => spec_piece()])
+        .prop_map(|(n, ch, tail, head)| format!("{head}{}{tail}", ch.repeat(n)));
     prop_oneof![
+        1 => long,
         3 => spec_piece(),
         4 => proptest::collection::vec(spec_piece(), 1..6).prop_map(|v| v.concat()),
         1 => ".{0,12}",
@@ -155,6 +159,11 @@ pub fn fmt_day() -> BoxedStrategy<i64> {
 pub fn fmt_time() -> BoxedStrategy<T> {
     prop_oneof![
         3 => crate::props::c09::text_time(),
+        // "x.5" fractions: half a millisecond / microsecond / other decimal unit (digit-selection boundaries)
+        2 => (0u32..86_400, 0u32..9, 1u32..2000, proptest::sample::select(vec![5u32, 1, 9, 25, 75])).prop_map(|(secs, j, k, d)| {
+            let frac = ((k as u64 * 10 + d as u64) * 10u64.pow(j) % 1_000_000_000) as u32;
+            T { secs, frac }
+        }),
         2 => (proptest::sample::select(vec![0u32, 11, 12, 13, 23]), 0u32..3600, 0u32..1_000_000_000).prop_map(|(h, s, frac)| T { secs: h * 3600 + s, frac }),
         1 => crate::props::c07::tod(),
     ]
